@@ -102,7 +102,27 @@ def run(prog: Program, rep: Report, tier: str):
                         "termination for every budget (argument: B <= N implies N//B*B >= B > 0, so every epoch has at "
                         "least one update; counters strictly increase; written here, not machine-checked)"]
     rep.require(R.main_iter is not None, "anchor-missing: loop over self.main_sampler in _training_loop")
+    # ---- 0. progress is local to one iteration of the sampler ---------------------------------------------------------
+    rep.rule("G8.iteration-state-local", "_training_loop keeps its progress in locals: inside its loops it stores nothing on self "
+             "(the only attribute stores - shrinking batch_size / drop_last_batch_size to the sampler length - lie before the "
+             "first loop).  Progress kept on the sampler object survives an abandoned iteration (a generator closed at a "
+             "yield never reaches code that would rewind it), so the next iteration would start from the abandoned one's "
+             "counters while the main sampler starts over")
+    loop_nodes = set()
+    for n_, nd_ in cfg.nodes.items():
+        if nd_.kind == "next" or (nd_.kind == "test" and isinstance(nd_.owner, ast.While)):
+            loop_nodes |= cfg.nodes_inside(nd_.owner.body)
+    leaks = sorted({(var, R.line(n_)) for n_, var, val in fa.stores(f"{fa.self_name}.") if n_ in loop_nodes})
+    calls_in_loops = [(n_, c_) for n_, c_ in fa.calls() if n_ in loop_nodes and isinstance(c_.func, ast.Name)
+                      and c_.func.id == "setattr" and c_.args and isinstance(c_.args[0], ast.Name) and c_.args[0].id == fa.self_name]
+    rep.decide(not leaks and not calls_in_loops, "G8.iteration-state-local", fi, "no-self-store-in-loops",
+               "no attribute of the sampler is written inside the loops",
+               "; ".join(f"{v} is written at line {ln}" for v, ln in leaks[:6]) + ": iteration progress lives on the sampler "
+               "object and leaks into the next iteration when this one is abandoned", line=leaks[0][1] if leaks else fi.node.lineno,
+               clause="C04.2")
     E, U, S = R.counter_from("start_epoch"), R.counter_from("start_update"), R.counter_from("start_sample")
+    if (leaks or calls_in_loops) and not (E and U and S):
+        return  # the counters are not locals: the remaining rules have no subject (reported above)
     rep.require(E and U and S, "anchor-missing: epoch/update/sample counters initialised from self.start_*")
     N, I = R.main_next, R.main_iter
     body = R.body_entry(N)
